@@ -114,7 +114,7 @@ def tlc(spec, cfg, workers=None, timeout=600, env=None, simulate=None, depth=Non
     r = TlcResult()
     specpath = spec if os.path.isabs(spec) else os.path.join(SPEC, spec)
     cfgpath = cfg if os.path.isabs(cfg) else os.path.join(SPEC, "cfg", cfg)
-    meta = os.path.join(BUILD, "tlc", metaname or (os.path.basename(cfgpath) + "." + str(os.getpid())))
+    meta = os.path.join(BUILD, "tlc", (metaname or os.path.basename(cfgpath)) + "." + str(os.getpid()))
     shutil.rmtree(meta, ignore_errors=True)
     os.makedirs(meta, exist_ok=True)
     jopts = []
